@@ -334,6 +334,15 @@ impl InterfaceInner {
                     return;
                 }
 
+                // The fragmentation buffer still holds unsent fragments of another packet.
+                // Sockets do not get here in that case (see `socket_egress`), this is a
+                // response generated while processing ingress: drop it rather than corrupt
+                // the packet in flight.
+                if !pkt.finished() {
+                    net_debug!("dispatch_ieee802154: dropping, fragmentation buffer is busy");
+                    return;
+                }
+
                 let payload_length = packet.header.payload_len;
 
                 Self::ipv6_to_sixlowpan(
